@@ -11,6 +11,27 @@ import Genshi.Lemmas.MatchRealOnceTree
 namespace Genshi.Match
 open Genshi Genshi.Path Genshi.Path.Ref
 
+/-! ### the mark form (a proof device: one Boolean per event, as `mkKids` in Model/MatchReal.lean) -/
+
+mutual
+  /-- output, the marks left (`[]` once an element was replaced), whether an element was replaced -/
+  def mkOnceNode (body : List BItem) : Node → List Bool → List Event × List Bool × Bool
+    | .leaf e, ms => ([e], ms.tail, false)
+    | .elem tg at_ kids, ms =>
+      if ms.headD false then (instantiate body (.start tg at_ :: (flattenList kids ++ [.end_ tg])), [], true)
+      else
+        let r := mkOnceKids body kids ms.tail
+        (.start tg at_ :: (r.1 ++ [.end_ tg]), r.2.1.tail, r.2.2)
+  def mkOnceKids (body : List BItem) : List Node → List Bool → List Event × List Bool × Bool
+    | [], ms => ([], ms, false)
+    | n :: ns, ms =>
+      let a := mkOnceNode body n ms
+      if a.2.2 then (a.1 ++ flattenList ns, [], true)
+      else
+        let b := mkOnceKids body ns a.2.1
+        (a.1 ++ b.1, b.2.1, b.2.2)
+end
+
 section
 variable {σ : Type}
 
